@@ -108,6 +108,19 @@ META["C07"] = {
     "level_note": "trusts the recording tracer and handlers",
 }
 
+META["C06"] = {
+    "budget": {"quick": 25, "thorough": 600},
+    "rule": "one run = generated schema + handler plan + 1..2 mutator tasks + 1..3 subscriber tasks issuing When/WhenNot/WhenTime/WhenTicks/WhenNextActive/WhenQuery/WhenArgs/WhenQueue/WhenQueueEnds/NewStateCtx with and without cancelable contexts + a nemesis cancelling contexts + optional SetSchema growth, all interleaved by the seeded scheduler (subscriptions land before, inside and after transitions, incl. between setActiveStates and processSubscriptions); non-trivial = at least one context switch; distinct = distinct event-log hashes",
+    "components": {"real": MACHINE_REAL, "stub": []},
+    "assumptions": [
+        "the reference ledger evaluates a condition on the machine view at the subscribing step and on the machine time at the end of every later accepted, non-check transition (when the machine processes subscriptions)",
+        "no handler faults in this family; WhenQueueEnds is judged at quiescence only",
+    ],
+    "probes": ["subscribe-during-transition", "context-canceled", "schema-grown"],
+    "level_text": "seeded search over subscriber/mutator/nemesis interleavings; before every transition and at quiescence each channel is compared with a subscription ledger: closed-but-never-justified is a spurious wake-up, justified-but-open a lost one; state contexts are canceled iff the tick changed",
+    "level_note": "trusts testing/synctest and the recording tracer; ledger conditions are written from the statement, not from the implementation",
+}
+
 NOT_YET = "check not built yet in this session (planned, see DESIGN.md section 5)"
 NOT_APPLICABLE = {
     "C19": "no schedule, clock, fault or multi-party behaviour: a static well-formedness scan of schema literals plus an exhaustive breadth-first enumeration of reachable active sets, i.e. bounded model checking, not deterministic simulation (DESIGN.md section 6)",
